@@ -94,7 +94,7 @@ Fixpoint find_lf (s : doc) : option N :=
 Definition u32 (x : N) : N := x mod 4294967296.
 
 (* ------------------------------------------------------------------ *)
-(* garden: the line number the lexer attaches to a byte offset
+(* The line number garden's lexer attaches to a byte offset
    (line_numbers::LinePositions: lines are split at `\n` only). *)
 Definition line_of (s : doc) (o : N) : N :=
   match split_bytes s o with
@@ -103,44 +103,66 @@ Definition line_of (s : doc) (o : N) : N :=
   end.
 
 (* ------------------------------------------------------------------ *)
-(* fn offset_to_lsp_position(src, offset, line_number) -> Position
+(* fn offset_to_lsp_position(src, offset) -> Position
 
      let offset = offset.min(src.len());
-     let line_start = src[..offset].rfind('\n').map_or(0, |i| i + 1);
+     let before = &src[..offset];
+     let line_start = before.rfind('\n').map_or(0, |i| i + 1);
+     let line = before.bytes().filter(|b| *b == b'\n').count();
      let character = src[line_start..offset].encode_utf16().count();
-     Position { line: line_number as u32, character: character as u32 }      *)
+     Position { line: line as u32, character: character as u32 }
+
+   (0x0A occurs in UTF-8 only as the encoding of `\n`, so counting bytes equal
+   to b'\n' counts `\n` characters.) *)
 Inductive pos_result :=
 | PPanic
 | POk (line character : N).
 
-Definition offset_to_lsp_position (src : doc) (offset line_number : N) : pos_result :=
+Definition offset_to_lsp_position (src : doc) (offset : N) : pos_result :=
   let offset := N.min offset (blen src) in
   match slice src 0 offset with
   | None => PPanic
-  | Some pre =>
-    let line_start := match rfind_lf pre with None => 0 | Some i => i + 1 end in
+  | Some before =>
+    let line_start := match rfind_lf before with None => 0 | Some i => i + 1 end in
+    let line := count_lf before in
     match slice src line_start offset with
     | None => PPanic
-    | Some seg => POk (u32 line_number) (u32 (ulen seg))
+    | Some seg => POk (u32 line) (u32 (ulen seg))
     end
   end.
 
-(* fn garden_pos_to_lsp_range(src, pos) -> Range: the two conversions, with
-   pos.line_number / pos.end_line_number supplied by the caller. *)
+(* fn garden_pos_to_lsp_range(src, pos) -> Range: the two conversions of
+   pos.start_offset and pos.end_offset.  The line fields of the garden
+   position are not used. *)
 Record gpos := { start_offset : N; end_offset : N; line_number : N; end_line_number : N }.
 
 Definition garden_pos_to_lsp_range (src : doc) (p : gpos) : option ((N * N) * (N * N)) :=
-  match offset_to_lsp_position src (start_offset p) (line_number p),
-        offset_to_lsp_position src (end_offset p) (end_line_number p) with
+  match offset_to_lsp_position src (start_offset p), offset_to_lsp_position src (end_offset p) with
   | POk l1 c1, POk l2 c2 => Some ((l1, c1), (l2, c2))
   | _, _ => None
   end.
 
-(* The range garden computes for the byte span [a, b) when the position's line
-   numbers are the lexer's (`\n`-count) line numbers. *)
+(* The range garden computes for the byte span [a, b). *)
 Definition range_of (src : doc) (a b : N) : option ((N * N) * (N * N)) :=
   garden_pos_to_lsp_range src
-    {| start_offset := a; end_offset := b; line_number := line_of src a; end_line_number := line_of src b |}.
+    {| start_offset := a; end_offset := b; line_number := 0; end_line_number := 0 |}.
+
+(* BEFORE the fix "LSP ranges take their lines from the offsets" the line was
+   the caller's: Position { line: line_number as u32, .. } with
+   pos.line_number / pos.end_line_number of the garden position.  Kept only
+   to state what was wrong (LspPosProps.stale_end_line_refuted). *)
+Definition offset_to_lsp_position_v0 (src : doc) (offset line_number : N) : pos_result :=
+  match offset_to_lsp_position src offset with
+  | PPanic => PPanic
+  | POk _ c => POk (u32 line_number) c
+  end.
+
+Definition garden_pos_to_lsp_range_v0 (src : doc) (p : gpos) : option ((N * N) * (N * N)) :=
+  match offset_to_lsp_position_v0 src (start_offset p) (line_number p),
+        offset_to_lsp_position_v0 src (end_offset p) (end_line_number p) with
+  | POk l1 c1, POk l2 c2 => Some ((l1, c1), (l2, c2))
+  | _, _ => None
+  end.
 
 (* ------------------------------------------------------------------ *)
 (* fn line_char_to_offset(src, line, character) -> usize
